@@ -404,3 +404,30 @@ sub('special/digamma.go','''      result -= 1.0/x
       x      += 1.0''','''      inv := 1.0/x
       result -= inv
       x      += 1.0''')
+# nullScalar scanning only the lower triangle including the diagonal (the Hessian is symmetric)
+sub('scalar_real64.go','''    for i := 0; i < a.GetN(); i++ {
+      for j := 0; j < a.GetN(); j++ {
+        if v := a.GetHessian(i, j); v != 0.0 {''','''    for i := 0; i < a.GetN(); i++ {
+      for j := 0; j <= i; j++ {
+        if v := a.GetHessian(i, j); v != 0.0 {''')
+# newton: the option held in a variable
+sub('algorithm/newton/newton.go','''    h, u, _ := qrAlgorithm.Run(H, &inSitu.QR, qrAlgorithm.ComputeU{true})''','''    wantU := qrAlgorithm.ComputeU{true}
+    h, u, _ := qrAlgorithm.Run(H, &inSitu.QR, wantU)''')
+# svd: the left factor under another local name
+rename_in_func('algorithm/svd/svd.go', r'func zeroRow\(', 'U', 'Uacc')
+# registry factory: the element type held in a local
+sub('statistics/distribution.go','''    return reflect.New(reflect.TypeOf(x).Elem()).Interface().(VectorPdf)''','''    et := reflect.TypeOf(x).Elem()
+    return reflect.New(et).Interface().(VectorPdf)''')
+# polygamma: the Bernoulli index held in a local
+sub('special/polygamma.go','''    term = part_term * BernoulliNumber(2*k)''','''    b2k := 2*k
+    term = part_term * BernoulliNumber(b2k)''')
+# gamma Cdf: the support test written from the other side
+sub('statistics/scalarDistribution/gamma.go','''  if x.GetFloat64() <= 0.0 {
+    r.SetFloat64(0.0)
+    return nil
+  }
+  r.Mul(x, dist.Beta)''','''  if !(x.GetFloat64() > 0.0) {
+    r.SetFloat64(0.0)
+    return nil
+  }
+  r.Mul(x, dist.Beta)''')
